@@ -291,7 +291,15 @@ def gen_program(rng, adversarial: bool) -> str:
             lines.append(f"{ind}U3({lit()}{ws()},{ws()}{lit()}{ws()},{ws()}{lit()}) {targets()}{cm}")
         elif r < 0.70:
             g = rng.choice(["H", "X", "S", "S_DAG", "SQRT_X", "I", "Z", "H_YZ", "C_XYZ"])
-            lines.append(f"{ind}{g}{tag()} {targets()}{cm}")
+            if rng.random() < 0.3:
+                # an interpreted tag written by hand: same parameters, non-canonical spacing around the separators / inside the brackets
+                nm = rng.choice(["R_X", "R_Y", "R_Z", "U3", "U3"])
+                names = ["theta", "phi", "lambda"][: (3 if nm == "U3" else 1)]
+                sep = rng.choice([",", ", ", " , ", ",  ", " ,"])
+                body = nm + "(" + sep.join(f"{k}={rng.choice(GOOD_LITS)}*pi" for k in names) + ")"
+                lines.append(f"{ind}I[{body}] {targets()}{cm}")
+            else:
+                lines.append(f"{ind}{g}{tag()} {targets()}{cm}")
         elif r < 0.78:
             g = rng.choice(["CX", "CZ", "SWAP", "ISWAP"])
             a = rng.randrange(nq + 1)
